@@ -26,3 +26,6 @@ func (r *rng) chance(num, den int) bool { return r.intn(den) < num }
 func (r *rng) pick(l []string) string { return l[r.intn(len(l))] }
 
 func (r *rng) fork() *rng { return &rng{s: r.next()} }
+
+// pick2 returns one of the given values.
+func (r *rng) pick2(xs ...any) any { return xs[r.intn(len(xs))] }
